@@ -27,7 +27,12 @@ What is proved is `C14_exact_subclass_partial`: the same with the two extra hypo
 required are present, literal keys are present).  Two converter configurations violate them for perfectly good
 instances — F48 (defaulted literal discriminator + `omit_if_default`) and F49 (a dataclass `default_factory` field
 is taken for a required one + `omit_if_default`); both are reproduced by the model (`C14_F48_…`, `C14_F49_…_witness`)
-and recorded as findings.
+and recorded as findings (F49 has since been repaired in the code: a `default_factory` field no longer counts as
+required; the harness now sends `dreq = false` for such fields and the F49 witness below documents the old behaviour).
+Repeated application (same converter or a copy, possibly after the hierarchy has grown) is modelled by
+`Setup.hooksAfter`: the later application captures the earlier one's hooks; `C14_reapplied_hooks_auto` shows they meet
+`ConformsExact`'s demand on captured hooks.  For the union strategy with `forbid_extra_keys` they do NOT (the earlier
+union hook looks for the tag the later one has popped): finding F53, reproduced by the driver's `SUBCLSN`.
 -/
 namespace CattrsModel
 open Subclasses
@@ -137,6 +142,28 @@ theorem C14_order_independent (S : Setup) (so' : Disambig.SetOrder) (uo' : Union
     ({ S with so := so', uo := uo' } : Setup).roundTrip K x = S.roundTrip K x := by
   rw [C14_exact_subclass_partial S hok K D hK hD x kvs hx h15 h43]
   exact C14_exact_subclass_partial { S with so := so', uo := uo' } hok' K D hK hD x kvs hx h15 h43'
+
+/-- **C14_reapplied_hooks_auto.**  Applying the automatic strategy AGAIN to the same converter (or to a copy of it), e.g.
+after the hierarchy has grown: the later application captures, for every class `D` the earlier one registered hooks for,
+those hooks (`Setup.hooksAfter`).  They still round-trip `D`'s own instances — which is exactly what `ConformsExact`
+asks of the captured hooks, so `C14_exact_subclass_partial` applies to the later application on the grown tree. -/
+theorem C14_reapplied_hooks_auto (S1 : Setup) (hs : S1.strategy = .auto) (plain : Tagged.Hooks)
+    (hok : TreeOK S1) (h47 : ¬ F47Region S1) (D : Nat) (hD : D ∈ S1.tr.unionClasses)
+    (x : Obj) (kvs : List (Obj × Obj)) (hx : ConformsExact S1 D x kvs) :
+    (S1.hooksAfter plain).un D x = some (.dict kvs) ∧ (S1.hooksAfter plain).st D (.dict kvs) = some x := by
+  have h15 : ¬ F15Region S1 D := by unfold F15Region; rw [hs]; exact fun h => h
+  have hrt := C14_exact_subclass_partial S1 hok D D hD (self_mem_subclassesOf hD) x kvs hx h15 h47
+  have hun : S1.un D x = some (.dict kvs) := by
+    unfold Setup.un
+    rw [hs]
+    simp only [unAuto, hx.1, if_true]
+    exact hx.2.1
+  have hc : S1.tr.unionClasses.contains D = true := by simpa using hD
+  unfold Setup.roundTrip at hrt
+  rw [hun] at hrt
+  simp only [Option.bind_some] at hrt
+  exact ⟨by simp only [Setup.hooksAfter, hc, if_true]; exact hun,
+         by simp only [Setup.hooksAfter, hc, if_true]; exact hrt⟩
 
 /-! ## refusing instead of guessing -/
 
@@ -368,6 +395,27 @@ def c14LitOmit : Setup :=
 /-- **C14_F48_literal_omitted_witness** (finding F48): accepted, and the round trip of `P()` raises (`data["k"]`). -/
 theorem C14_F48_literal_omitted_witness :
     c14LitOmit.applyOk = true ∧ c14LitOmit.roundTrip 0 (.inst 0 [("k", .int 1)]) = Option.none := by decide
+
+/-- the union strategy applied a second time to the same converter (same fixture, `forbid_extra_keys`): the per-class
+hooks it captures are those of the first application -/
+def c14UnionTwice : Setup :=
+  { c14Union true with H := (c14Union true).hooksAfter (concHooks c14Tree true) }
+
+/-- **C14_F53_union_reapplied_witness** (finding F53): after the second application an instance of `Parent` itself no
+longer round-trips through `Parent` (the new union hook pops the tag, the captured old one looks for it), while it did
+after the first; without `forbid_extra_keys` the second application is harmless. -/
+theorem C14_F53_union_reapplied_witness :
+    (c14Union true).roundTrip 0 (.inst 0 [("a", .int 1)]) = some (.inst 0 [("a", .int 1)]) ∧
+    c14UnionTwice.applyOk = true ∧ c14UnionTwice.roundTrip 0 (.inst 0 [("a", .int 1)]) = Option.none ∧
+    ({ c14Union false with H := (c14Union false).hooksAfter (concHooks c14Tree false) } : Setup).roundTrip 0
+      (.inst 0 [("a", .int 1)]) = some (.inst 0 [("a", .int 1)]) := by decide
+
+/-- non-vacuity of `C14_reapplied_hooks_auto` -/
+example : ((c14Auto true).hooksAfter (concHooks c14Tree true)).st 2 (.dict c14GrandKvs) = some c14Grand :=
+  (C14_reapplied_hooks_auto (c14Auto true) rfl (concHooks c14Tree true) (c14Auto_ok true) (c14Auto_no43 true) 2 (by decide)
+    c14Grand c14GrandKvs
+    ⟨rfl, by decide, by decide,
+      ⟨[("a", 1), ("b", 2), ("c", 3)], by decide, payloadOfB_sound (by decide), litKeysPresentB_sound (by decide)⟩⟩).2
 
 end Examples
 
